@@ -7,9 +7,9 @@ use crate::messages::{self, AisMessage};
 use nom::branch::alt;
 use nom::bytes::complete::{tag, take, take_until};
 use nom::character::complete::{anychar, digit1};
-use nom::combinator::{map, map_res, opt, peek, verify};
+use nom::combinator::{all_consuming, map, map_res, opt, verify};
 use nom::number::complete::hex_u32;
-use nom::sequence::{delimited, terminated};
+use nom::sequence::delimited;
 use nom::IResult;
 
 pub const MAX_SENTENCE_SIZE_BYTES: usize = 384;
@@ -273,8 +273,10 @@ fn parse_ais_sentence(data: &[u8]) -> IResult<&[u8], AisSentence> {
 fn parse_nmea_sentence(data: &[u8]) -> IResult<&[u8], (&[u8], AisSentence, u8)> {
     let (data, _) = opt(delimited(tag("\\"), take_until("\\"), tag("\\")))(data)?;
     let (data, _) = alt((tag("!"), tag("$")))(data)?;
-    let (data, raw) = peek(take_until("*"))(data)?;
-    let (data, msg) = terminated(parse_ais_sentence, tag("*"))(data)?;
+    // The checksum covers everything up to the first '*', so the sentence has to end exactly there
+    let (data, raw) = take_until("*")(data)?;
+    let (_, msg) = all_consuming(parse_ais_sentence)(raw)?;
+    let (data, _) = tag("*")(data)?;
     let (data, checksum) = verify(hex_u32, |val| val <= &0xff)(data)?;
     Ok((data, (raw, msg, checksum as u8)))
 }
